@@ -669,6 +669,7 @@ def gen_project(rng, flags=None):
 
     # 3. calls
     alias = [0]
+    frozen = set()    # modules that are imported without only-list: their set of public names must not grow
 
     def visible_names(p):
         names = {'x', 'xr', 'y', 'this', p.name}
@@ -725,16 +726,19 @@ def gen_project(rng, flags=None):
                   and not any(u.only is None for u in p.uses)
                   and not ({q.name for q in mm.procs} | {t.name for t in mm.types} | set(mm.globals)
                            | {i.name for i in mm.interfaces}) & vis
-                  and (F['unq_intf_member'] or not mm.interfaces))
+                  and (F['unq_intf_member'] or not mm.interfaces)
+                  and not mm.uses)    # no re-exported names (module-level imports are frozen afterwards)
         if unq_ok and style < 0.15:
             if F['unq_intf_member'] and (module, remote) in intf_members:
                 feats.add('unq_intf_member')
             p.uses.append(Use(module, None))
+            frozen.add(module)
             feats.add('unqualified_import')
             return remote
         modlevel_kind_ok = (kind in ('subroutine', 'typedef') or (kind == 'interface' and F['modlevel_intf_import'])
                             or (kind == 'function' and F['inline_only_functions']))
-        if (allow_modlevel and F['module_level_imports'] and p.module and style > 0.8 and modlevel_kind_ok
+        if (allow_modlevel and F['module_level_imports'] and p.module and p.module not in frozen
+                and style > 0.8 and modlevel_kind_ok
                 ):
             m = P.modules[p.module]
             mvis = set()
@@ -845,7 +849,7 @@ def gen_project(rng, flags=None):
 
     if F['globals'] and F['module_level_imports']:
         for m in modlist:
-            if rng.random() < 0.2:
+            if rng.random() < 0.2 and m.name not in frozen:
                 cands = [mm for mm in modlist if mm.globals and mm.rank > m.rank]
                 if cands:
                     mm = rng.choice(cands)
